@@ -835,7 +835,8 @@ def x15(rep, w):
         if not pushes:
             continue
         n += 1
-        r.check(c01.all_paths_hit(f, None, set(pushes)), '%s pushes on every path' % f.path.rsplit('::', 1)[-1],
+        # (a path that ends in an Err - the handler list is full - registers nothing and says so: the caller raises it)
+        r.check(c01.all_paths_hit(f, None, set(pushes) | emit_error_returns(f)), '%s pushes on every path' % f.path.rsplit('::', 1)[-1],
                 '%s can return without pushing a handler entry (it reuses or skips one): a recursive activation of the same try statement then shares - and pops - the '
                 'caller\'s handler, and the exception escapes to an outer handler' % f.path, f.loc())
     if n < 1:
@@ -866,7 +867,11 @@ def x16(rep, w, prop='C08'):
         raise Broken(prop, 'anchor', 'no reader of ExcHandler.catch_ip found')
     allowed = {p_ for p_ in readers if p_ == VM + 'unwind_stack' or p_.startswith('yarel::object::ExcHandler::') or p_.startswith('yarel::object::<impl') or 'object::ExcHandler as ' in p_ or
                (p_.startswith('yarel::object::ObjFiber::') and 'push_exc_handler' in p_) or p_.startswith('yarel::debug::')}
+    import c10
     for p_ in sorted(readers):
+        if p_ not in allowed and c10.pure_body(w, w.fns[p_], 2):
+            r.ok('%s reads catch_ip and changes nothing (it only formats / prints what it read)' % p_.replace('yarel::', ''))
+            continue
         r.check(p_ in allowed, '%s may read catch_ip' % p_.replace('yarel::', ''), '%s reads the entry address of an exception handler: it delivers (or decides about delivering) an exception '
                 'outside unwind_stack, without discarding the frames between the raise and the handler\'s own frame' % p_, w.fns[p_].loc())
 
